@@ -574,11 +574,13 @@ pub fn flatten(
     mut callback: impl FnMut(PathEl),
 ) {
     let sqrt_tol = tolerance.sqrt();
+    let mut start_pt = None;
     let mut last_pt = None;
     let mut quad_buf = Vec::new();
     for el in path {
         match el {
             PathEl::MoveTo(p) => {
+                start_pt = Some(p);
                 last_pt = Some(p);
                 callback(PathEl::MoveTo(p));
             }
@@ -648,7 +650,9 @@ pub fn flatten(
                 last_pt = Some(p3);
             }
             PathEl::ClosePath => {
-                last_pt = None;
+                // After closing, the current point is the start of the subpath
+                // (as in `Segments`, the stroker and the dasher).
+                last_pt = start_pt;
                 callback(PathEl::ClosePath);
             }
         }
